@@ -750,6 +750,10 @@ func (p *parser) parseMessageTransmitter() (*MessageTransmitter, error) {
 	}
 	mt.MessageID = msgID
 
+	if err := p.expectPunct(punctColon); err != nil {
+		return nil, err
+	}
+
 	for {
 		t := p.scan()
 		p.unscan()
